@@ -86,6 +86,19 @@ int main(int argc, char **argv) {
         o.units = (uint64_t)(16384 / STEP + 5 + 16384 / (STEP * 8));
         if(!o.bad) o.nontrivial = true; };
       fams.push_back(F); }
+    { // the bend range is changed (RPN 0) while the wheel is off centre; the next key-on must use the range in force now
+      static const int BENDS[] = {0, 2000, 8191, 12000, 16383};
+      en::Family F; F.name = "range_change_after_bend"; F.count = 2 * 6 * 6 * 5 * 3; F.chunk = 8; F.budget_s = 60; F.describe = "chip family x bend range before {0,1,2,12,24,127.99} x bend range after (same set) x bend {0,2000,8191,12000,16383} x key {40,60,90}: pitch bend, then RPN 0 data entry (MSB, LSB), then note-on, then a second RPN change with the note held followed by a CC1 vibrato-free re-pitch through a bend of the same value";
+      F.run = [](uint64_t i, en::CaseOut &o) { Sweep s; uint64_t r = i; s.family = (int)(r % 2); r /= 2; s.range = (int)(r % 6); r /= 6; int range2 = (int)(r % 6); r /= 6; int bend = BENDS[r % 5]; r /= 5; static const int KEYS[] = {40, 60, 90}; int key = KEYS[r % 3]; s.offset = 2; s.chan = 0;
+        pl::Instance I; if(!setup(I, s, 0)) { o.fail("C10/harness", "setup failed"); return; } OPN2_MIDIPlayer *d = I.dev; char w[200]; double lastf = -1;
+        opn2_rt_pitchBend(d, 0, (OPN2_UInt16)bend);
+        opn2_rt_controllerChange(d, 0, 101, 0); opn2_rt_controllerChange(d, 0, 100, 0); opn2_rt_controllerChange(d, 0, 6, (OPN2_UInt8)RANGES[range2][0]); opn2_rt_controllerChange(d, 0, 38, (OPN2_UInt8)RANGES[range2][1]);
+        double r2 = RANGES[range2][0] + RANGES[range2][1] / 128.0;
+        if(opn2_rt_noteOn(d, 0, (OPN2_UInt8)key, 100) != 1) { o.fail("C10/note-rejected", "note-on rejected"); return; }
+        snprintf(w, sizeof w, "%s key %d: bend %d sent under range %.3f, range then set to %.3f, key-on", s.family ? "OPNA" : "OPN2", key, bend, RANGES[s.range][0] + RANGES[s.range][1] / 128.0, r2);
+        check_pitch(I, s.family, key + (bend - 8192) / 8192.0 * r2, w, o, lastf, false);
+        if(i % 97 == 0) o.sample = w; if(!o.bad) o.nontrivial = true; };
+      fams.push_back(F); }
     { en::Family F; F.name = "drum_key"; F.count = 2 * 127 * 3; F.chunk = 16; F.budget_s = 60; F.describe = "percussion channel: drum key 1..127 fixes the pitch whatever MIDI key {35,60,100} is played, OPN2/OPNA";
       F.run = [](uint64_t i, en::CaseOut &o) { Sweep s; s.family = (int)(i % 2); s.range = 2; s.offset = 2; s.chan = 9; int dk = 1 + (int)((i / 2) % 127); static const int KEYS[] = {35, 60, 100}; int key = KEYS[i / 254];
         pl::Instance I; if(!setup(I, s, dk)) { o.fail("C10/harness", "setup failed"); return; } double lastf = -1; char w[120];
